@@ -137,9 +137,9 @@ func TestVerifC08H(t *testing.T) {
 			t.Fatal(err)
 		}
 	}()
-	depth := 6
+	depth := 7
 	if vres.Thorough() {
-		depth = 8
+		depth = 10
 	}
 	if vres.ReplayPath() != "" {
 		var rp vh.HReplay
